@@ -159,9 +159,11 @@ def run_concrete(contract, args):
     """call the real function; -> ('return', value) | ('raise', ClassName)"""
     module, owner, name = real_callable(contract)
     params = contract.params
-    vals = []
+    vals, kw = [], {}
     for p in params:
-        if p.startswith("*"):
+        if p.startswith("**"):
+            kw.update(args[p[2:]])
+        elif p.startswith("*"):
             vals.extend(args[p[1:]])
         else:
             vals.append(args[p])
@@ -169,8 +171,8 @@ def run_concrete(contract, args):
         if contract.kind == "property":
             return ("return", getattr(vals[0], name))
         if contract.kind == "method":
-            return ("return", getattr(vals[0], name)(*vals[1:]))
-        return ("return", getattr(owner, name)(*vals))
+            return ("return", getattr(vals[0], name)(*vals[1:], **kw))
+        return ("return", getattr(owner, name)(*vals, **kw))
     except Exception as e:
         return ("raise", type(e).__name__)
 
